@@ -441,7 +441,7 @@ def declaredOutputsTy (j : Job) : Ty :=
 def needsTy (outs : List (String × Ty)) (lower : String → String) (jobs : List (String × Job)) (job : Job) : Ty :=
   .obj ((job.needs.getD []).foldl (fun ps id =>
     let i := lower id.value
-    if i = job.id.value then ps
+    if i = lower job.id.value then ps
     else if (Ty.lookup i ps).isSome then ps
     else match lookupJob i jobs with
       | none => ps
